@@ -93,12 +93,19 @@ class Cut(ast.NodeTransformer):
 
         loc = ast.Call(ast.Name("locals", ast.Load()), [], [])
         it = ast.Name("_vc_iter", ast.Load())
+        body = _BreakContinue().rewrite(node.body)
+        exc = lambda name: ast.Attribute(ast.Name("vcl_", ast.Load()), name, ast.Load())
+        guarded = ast.Try(
+            body=body + [ast.Expr(call("iter_end", lid, loc, it))],
+            handlers=[ast.ExceptHandler(type=exc("Continue"), name=None, body=[ast.Expr(call("iter_end", lid, loc, it))]),
+                      # `break`: the loop is left from this (arbitrary) iteration; execution goes on after the loop
+                      ast.ExceptHandler(type=exc("Break"), name=None, body=[ast.Expr(call("left_by_break", lid, loc, it))])],
+            orelse=[], finalbody=[])
         new = [
             ast.Assign([ast.Name("_vc_iter", ast.Store())], node.iter),
             ast.Expr(call("enter", lid, loc, it)),
             ast.If(call("arbitrary", lid),
-                   [ast.Assign([node.target], call("havoc_iter", lid, loc, it))] + node.body
-                   + [ast.Expr(call("iter_end", lid, loc, it))],
+                   [ast.Assign([node.target], call("havoc_iter", lid, loc, it)), guarded],
                    [ast.Expr(call("havoc_exit", lid, loc, it))]),
         ]
         return [ast.fix_missing_locations(ast.copy_location(n, node)) for n in new]
@@ -125,6 +132,26 @@ class Cut(ast.NodeTransformer):
             raise Unsupported(f"loop-carried locals {bad} are read after the cut loop")
 
 
+class _BreakContinue(ast.NodeTransformer):
+    """`break` / `continue` that belong to the cut loop become exceptions handled by the cut."""
+
+    def rewrite(self, stmts):
+        return [self.visit(s) for s in stmts]
+
+    def visit_For(self, node):      # nested loops keep their own break/continue
+        return node
+
+    visit_While = visit_For
+    visit_FunctionDef = visit_For
+    visit_Lambda = visit_For
+
+    def visit_Break(self, node):
+        return ast.copy_location(ast.Raise(ast.Call(ast.Attribute(ast.Name("vcl_", ast.Load()), "Break", ast.Load()), [], []), None), node)
+
+    def visit_Continue(self, node):
+        return ast.copy_location(ast.Raise(ast.Call(ast.Attribute(ast.Name("vcl_", ast.Load()), "Continue", ast.Load()), [], []), None), node)
+
+
 def cut_tree(tree, fname, ordinal, lid):
     c = Cut(fname, ordinal, lid)
     tree = c.visit(tree)
@@ -134,7 +161,17 @@ def cut_tree(tree, fname, ordinal, lid):
     return tree
 
 
+class _Break(Exception):
+    pass
+
+
+class _Continue(Exception):
+    pass
+
+
 class CutRuntime:
+    Break = _Break
+    Continue = _Continue
     """Run-time half of the cut.  spec[lid] = dict(inv=f(loc, i)->SB, havoc=f(loc), frame=f(loc)->snapshot,
     frame_ok=f(snapshot, loc)->SB)."""
 
@@ -165,12 +202,21 @@ class CutRuntime:
         i = M.int(f"loop.{lid}.i") if M is not None else SV(t=z3.Int(f"loop.{lid}.i"))
         CTX.assume(i >= 0)
         CTX.assume(i < hi)
-        sp["havoc"](loc, "iter")
+        if bool(i == 0):
+            # the first iteration starts from the ACTUAL entry state (nothing is forgotten): the invariant need not
+            # say anything about it, which keeps the cut independent of how much work is done before the loop
+            pass
+        else:
+            sp["havoc"](loc, "iter")
         CTX.assume(sp["inv"](loc, i))
         if "frame" in sp:
             self.snap = sp["frame"](loc)
         self.i = i
         return i
+
+    def left_by_break(self, lid, loc, it):
+        # leaving through `break` from an arbitrary iteration: the invariant of that iteration is all that is known
+        return None
 
     def iter_end(self, lid, loc, it):
         sp = self.spec[lid]
@@ -185,5 +231,7 @@ class CutRuntime:
     def havoc_exit(self, lid, loc, it):
         sp = self.spec[lid]
         hi = self._hi(it)
+        if bool(SV.lift(hi) == 0):
+            return            # zero iterations: the state after the loop is the actual entry state
         sp["havoc"](loc, "exit")
         CTX.assume(sp["inv"](loc, hi))
